@@ -124,8 +124,7 @@ class WriteSrec(Harness):
         code = list(i["code"])
         n = len(code)
         dec = srec.decode(out.value, hexlemma.canon)
-        res = {"reader-digit-lemma": dec["lemmas"],
-               "records-wellformed": dec["records_ok"],
+        res = {"records-wellformed": dec["records_ok"],
                "file-structure": dec["structure_ok"]}
         mem, twice = srec.load(dec["data"])
         if all(k in mem for k in range(n)):
